@@ -73,7 +73,7 @@ class HllC11(W.WirePart):
                           corrupt_accept=0, corrupt_throw=0, corrupt_unsafe=0)
 
     def generate(self, rng, tier):
-        nh = 20 if tier == "quick" else 200
+        nh = 20 if tier == "quick" else 150
         hs = []
         for i in range(nh):
             h = []
